@@ -166,6 +166,7 @@ package dawn
 //@   modifies heap, phase, was_eval, n_body, body_ok, body_data, n_save, saved_rerun, saved_data, saved_deps
 //@   loop 0: invariant phase == 0 && !was_eval && n_body == old(n_body) && n_save == old(n_save)
 //@   loop 0: invariant depData != nil && proj != nil
+//@   loop 0: step dep-blamed: when !depsUpToDate && old(depsUpToDate) ensures !ok || dep.Target.(*dawn.runTarget).changed || newData != prevData
 //@   loop 0: step dep-checked: when depsUpToDate ensures old(depsUpToDate) && ok && !dep.Target.(*dawn.runTarget).changed && newData == prevData && depData[label] == newData && dep.Error == nil
 
 // Bodies report `changed` whenever they succeed: this is what the dry run assumes (C13).
@@ -228,6 +229,7 @@ package dawn
 //@   nopanic
 //@   ensures  uptodate-only-if-equal: result.0 ==> (result.3 == nil && steq(f.oldEnv, f.newEnv))
 //@   ensures  reason-or-error: (!result.0 && result.3 == nil) ==> result.1 != ""
+//@   ensures  equal-means-uptodate: (result.3 == nil && steq(f.oldEnv, f.newEnv) && old(f.oldEnv) != ifaceas("starlark.NoneType", 0)) ==> result.0
 //@   modifies heap, dkeys, dvals, it_seen
 
 // ---------------------------------------------------------------- C17: glob() walks every directory
@@ -261,6 +263,8 @@ package dawn
 //@ func (*dawn.function).load
 //@   requires f != nil && f.proj != nil && f.label != nil
 //@   retassert errors-propagate: result == nil ==> err == nil
+//@   retassert refresh-writes-what-it-read: n_save == old(n_save) + 1 ==> (saved_data == info.Data && saved_rerun == info.Rerun && saved_deps == info.Dependencies)
+//@   ensures  at-most-one-save: n_save <= old(n_save) + 1
 //@   modifies heap, n_json, json_failed, n_save, saved_rerun, saved_data, saved_deps, ipos
 
 // ---------------------------------------------------------------- C12: source paths stay inside the project
@@ -477,3 +481,75 @@ package dawn
 //@   requires f != nil
 //@   ensures  env-equal-or-always: (result.3 == nil && result.0) ==> (f.always || steq(f.oldEnv, f.newEnv))
 //@   modifies heap, olen, obytes, ipos, dkeys, dvals, it_seen
+
+// A function target's flags and declared outputs are fixed when it is created.
+//@ struct dawn.function
+//@   stable always, gens writers (*dawn.Project).loadFunction
+//@   stable oldEnv, newEnv writers (*dawn.function).evaluate, (*dawn.function).load, (*dawn.function).upToDate
+
+// ... and, unless it always runs, only after every file it declares as generated was found present.
+//@ func (*dawn.function).upToDate variant presence
+//@   requires f != nil
+//@   ensures  outputs-present: (result.3 == nil && result.0 && !f.always) ==> (forall i: int :: 0 <= i && i < len(f.gens) ==> statted[f.gens[i]])
+//@   ensures  out-of-date-for-a-cause: (result.3 == nil && !result.0 && !old(missing_seen)) ==> (missing_seen || !steq(f.oldEnv, f.newEnv) || f.oldEnv == ifaceas("starlark.NoneType", 0))
+//@   modifies heap, olen, obytes, ipos, dkeys, dvals, it_seen, statted, missing_seen
+//@   loop 0: invariant f != nil && !f.always
+//@   loop 0: invariant checked-so-far: forall i: int :: 0 <= i && i <= rangeindex ==> statted[f.gens[i]]
+
+// ---------------------------------------------------------------- C03: the index is never required
+// A load that was not asked to prefer the index never reads it; a load that prefers it and cannot
+// read it falls back to a full load of the packages (or reports that load's error).
+//@ ghost n_loadindex int threadlocal = 0
+//@ ghost loadindex_failed bool threadlocal = false
+//@ ghost n_loadpkg int threadlocal = 0
+//@ func (*dawn.Project).loadIndex
+//@   trusted
+//@   ensures n_loadindex == old(n_loadindex) + 1 && loadindex_failed == (result != nil)
+//@   modifies heap, n_loadindex, loadindex_failed
+//@ func (*dawn.Project).loadPackage
+//@   trusted
+//@   ensures n_loadpkg == old(n_loadpkg) + 1
+//@   modifies heap, n_loadpkg
+//@ func (dawn.Events).LoadDone
+//@   modifies heap
+//@ func (*dawn.Project).link
+//@   trusted
+//@   modifies heap
+//@ func (*dawn.Project).saveIndex
+//@   trusted
+//@   modifies heap
+//@ func (*dawn.Project).load$1
+//@   modifies heap
+//@ func (*dawn.Project).load
+//@   requires proj != nil
+//@   ensures  index-not-required: !index ==> n_loadindex == old(n_loadindex)
+//@   ensures  falls-back: (index && n_loadindex == old(n_loadindex) + 1 && loadindex_failed) ==> (n_loadpkg == old(n_loadpkg) + 1 || result != nil)
+//@   ensures  always-full-unless-indexed: (result == nil && n_loadpkg == old(n_loadpkg)) ==> (index && n_loadindex == old(n_loadindex) + 1 && !loadindex_failed)
+//@   modifies heap, n_loadindex, loadindex_failed, n_loadpkg
+
+// C03: a crash at any point of saveTargetInfo leaves the record path holding either the previous
+// record or the complete new one. The rename is the only effect on the record path
+// (saveTargetInfo/effects#frame:noeffects, #callsite:onto-record-path), it is atomic (POSIX,
+// assumed), and it happens only after the temporary file was written and closed successfully
+// (#callsite:after-complete-write).
+//@ lemma C03-crash-prefix int <<<
+//@ (declare-const renamed Bool) (declare-const enc_ok Bool) (declare-const close_ok Bool)
+//@ (declare-const old_rec Int) (declare-const tmp_content Int) (declare-const full_new Int) (declare-const rec Int)
+//@ (assert (=> (and enc_ok close_ok) (= tmp_content full_new)))
+//@ (assert (=> renamed (and enc_ok close_ok)))
+//@ (assert (= rec (ite renamed tmp_content old_rec)))
+//@ (assert (not (or (= rec old_rec) (= rec full_new))))
+//@ >>>
+
+// C01: a dependency whose present stamp equals the stamp a target recorded has not executed since
+// that record was made, provided every execution changes the stamp (content checksums for
+// sources; Evaluate#post:restamped-after-dependency-change for function targets) - which is what
+// lets Evaluate#step:dep-checked stand for "no dependency executed since".
+//@ lemma C01-skip int <<<
+//@ (declare-fun stamp (Int) Int)
+//@ (declare-const seen Int) (declare-const now Int)
+//@ (assert (forall ((i Int) (j Int)) (=> (and (<= 0 i) (< i j)) (not (= (stamp i) (stamp j))))))
+//@ (assert (and (<= 0 seen) (<= seen now)))
+//@ (assert (= (stamp now) (stamp seen)))
+//@ (assert (not (= now seen)))
+//@ >>>
